@@ -31,6 +31,58 @@ CHECKS = {
          "explicit-state BFS over write/read/rekey sequences on real transport states against a key-term model; bytes compared with REKEY computed by an independent AEAD",
          "All sequences (depth 4/6) of write, read, rekey_outgoing/incoming and the three manual rekeys on both endpoints, stateful and stateless, 3 ciphers x 2 backends x interactive/one-way: reads succeed iff sender and receiver key terms agree, bytes equal reference ENCRYPT(key(term), n), nonces untouched by rekeys.",
          "Transport reference is keyed with the keys the implementation installed at Split() (seen by the RecordingCipher) so that the verdict is independent of handshake conformance (C01)."),
+ "C02": ("model_checking", "E1 product (executor, abstract model)",
+         "exhaustive enumeration of all 13 344 protocol names (keys from the library's own generate_keypair under scripted RNG streams, scripted-RNG ephemerals) plus bounded products of payload lengths, transport modes and every direction string of length <= 5",
+         "Every honest session completes after exactly #messages messages on both sides, every handshake and transport payload is returned intact, both sides report the same handshake hash and every ephemeral is drawn during its write - for every name, 4 transport modes, payload lengths 0..max per message index (covering subset), all 62 direction strings.",
+         "OS randomness is a seam answer and is not enumerated (one labelled sample run per base pattern); hfs/Kyber names only in the hfs build; Curve448 has no resolver."),
+ "C03": ("fault_enumeration", "E1 fault product (executor + reference field map)",
+         "exhaustive enumeration of single alterations (every bit / one bit per byte, every truncation, extensions, substitutions) of every handshake message, then pairs; oracle from the reference field map",
+         "For every handshake name and message: no alteration lets both parties finish without an error, and an alteration that touches a field the reference field map marks encrypted (or changes the length of an encrypted tail) is rejected by the receiving read itself; also after an earlier altered copy was rejected, and with two altered messages.",
+         "A complete first message of a parallel session is a valid message (Noise has no replay protection for it): exempt from clause (b), and from (a) for one-way patterns; random multi-byte edits are replaced by the exhaustive single-bit/truncation/substitution alphabets."),
+ "C04": ("fault_enumeration", "E1 product (executor, provenance model)",
+         "exhaustive enumeration of deliveries to transport reads: every single-bit flip, every truncation, extensions, constants, reflection, cross-session and handshake messages, and all ordered pairs of an 80-value nonce alphabet in stateless mode",
+         "A transport read returns Ok iff the delivered bytes are the unaltered message the peer wrote for this session, direction, key and nonce (then exactly the payload); 2 million deliveries over 38 patterns + psk variants x 3 ciphers x 2 backends x both modes in the quick tier.",
+         "Acceptance oracle is the crypto-free provenance model; random 64-bit nonces replaced by boundary + all single-bit values."),
+ "C08": ("model_checking", "E1 product (executor as driver)",
+         "exhaustive enumeration of single context differences between the two peers (name string, hash/cipher component, every prologue bit/length, every psk bit, pre-shared static keys incl. related keys) for every name (quick: covering subset), pairs in thorough",
+         "Peers that differ in the protocol name, prologue, any PSK or any pre-shared static key never both complete the handshake without an error and never accept each other's transport messages; the equal configuration is run as a control.",
+         "Names differing only by trailing NULs from a name shorter than HASHLEN are indistinguishable by the specification's padding and excluded."),
+ "C10": ("fault_enumeration", "E1 sweep with catch_unwind at the call boundary + watchdog",
+         "exhaustive enumeration of calls x states x buffer lengths around every computed field boundary x message shapes, each inside catch_unwind; hang watchdog",
+         "2.2 million public calls (parse, builder with key lengths 0..=200, every handshake state x write/read/set_psk/conversion/getters x boundary buffer lengths x message shapes up to 66000 bytes, both transport modes at boundary nonces) return Ok or Err; none panics or hangs.",
+         "Two open known findings (P-256 scalar 0 or >= n panics in derive_pubkey via Dh::set / Dh::generate) are listed in known_findings.json; allocation-failure aborts cannot occur at the sizes used."),
+ "C12": ("model_checking", "E1 complete product",
+         "complete enumeration of the finite builder configuration space (patterns x roles x key subsets x psk modifiers x supplied psk subsets x 7 resolvers x 3 DH names) against requirements derived from the spec pattern text, then the honest handshake of every buildable pair",
+         "build_* succeeds iff the role's required keys are supplied, every modifier is implemented and fits, and the resolver is complete, with the matching error kind otherwise; no successfully built pair fails later for missing key material; an omitted PSK yields MissingPsk exactly at the message that needs it, an all-zero substitute never completes, set_psk then completes.",
+         "Requirements come from refnoise's parse of the specification's arrow notation, not from snow's tables; keys have the DH's key length."),
+ "C13": ("model_checking", "E1 product against a reference recogniser",
+         "exhaustive enumeration of strings (full valid product with modifier lists of length <= 3 in every order, all single-edit mutations of 600 names, all strings of length <= 6 over a 10-letter alphabet in the handshake field, structure variations) parsed by snow and by a reference recogniser",
+         "3 million strings: parsing succeeds iff the reference grammar recognises the string; accepted values name exactly the components and preserve the string verbatim; rejections are Error::Pattern.",
+         "Declared don't-care set: psk numbers with leading zeros. hfs names only in the hfs build (./check C13@hfs)."),
+ "C14": ("model_checking", "E1 product (executor + reference field map, canary buffers)",
+         "exhaustive enumeration of payload lengths near both limits x buffer lengths around the predicted length for every message of every handshake name, every truncation length on reads, transport likewise",
+         "A successful write returns exactly the predicted length, never more than 65535 nor than the buffer, bytes beyond it untouched; a write that cannot fit fails with Error::Input; reads of >65535 bytes or fewer than the fixed fields fail; a successful read returns length minus overhead.",
+         "Success with an exactly fitting buffer is not demanded (snow's 16 spare bytes rule for clear payloads is accepted either way)."),
+ "C16": ("model_checking", "E1 (executor) + E3 shuttle::check_dfs at cipher-call seams + labelled free-running sample",
+         "exhaustive enumeration of call orders/repetitions and of every interleaving (shuttle depth-first search, no sampling) of the pre-cipher/cipher/post-cipher segments of concurrent stateless calls on a shared state; differential against the stateful sender",
+         "Stateless round trips for an 80-nonce alphabet x 4 sizes, all 120 orders x 3 repetitions of five calls, equality with the stateful sender for n in 0..=8, 8 large nonces (via the nonce hook) and the 65519-byte payload; 2x2 and 3x1 thread mixes (923 / 25 424 / 2 274 schedules each) all return what the sequential function returns.",
+         "snow has no lock/atomic/cell: preemptions inside a segment are covered by the type system, not the exploration; the free-running real-thread run is a sample and labelled so."),
+ "C17": ("model_checking", "E1 product (executor, pattern-derived model)",
+         "exhaustive enumeration of handshake names x DH x supplied-key variants x transport modes, getter compared at every point of the session including around failing calls",
+         "get_remote_static equals the model at every point: absent before the pattern conveys the key, exactly the peer's full public key (32 / 65 bytes) afterwards, identical across HandshakeState, TransportState and StatelessTransportState, unaffected by failing calls.",
+         "The peer's true key is computed by ring from its private key; a key supplied although the pattern transmits it is shown until the transmitted one has been read."),
+ "C18": ("model_checking", "E1 product over the resolver objects vs independent implementations",
+         "exhaustive enumeration of lengths (HMAC keys 0..=block x data 0..=3 blocks+1, hash lengths, ad/plaintext grids) and structured key/nonce/scalar/point alphabets, each output compared with ring / hmac / hkdf / hand-written HChaCha20",
+         "440 000 primitive calls on DefaultResolver and RingResolver objects: hashes, HMAC, HKDF, AEAD (incl. round trip, rejection of every bit flip / truncation / wrong nonce, ad, key; rekey), X25519 and P-256 (incl. low-order, non-canonical, twist and invalid points; generated key pairs) equal their standards.",
+         "Value spaces are closed by alphabets; BLAKE2 digests have no second implementation offline (KATs + cacophony)."),
+ "C19": ("fault_enumeration", "E1 product (executor with retained error buffers)",
+         "exhaustive enumeration of tag/body bit positions x output buffer sizes x read paths x ciphers x backends; canary-filled buffers searched for plaintext windows after Err",
+         "After a rejected handshake-payload, stateful, stateless or direct Cipher::decrypt read, the caller's buffer contains no 8-byte window of the rejected message's plaintext, for every tag bit, body bits, wrong nonce/ad and 5 buffer sizes.",
+         "Plaintexts shorter than 4 bytes are not judged (chance matches)."),
+ "C20": ("model_checking", "E1 complete (differential across backend assignments) + fallback truth table",
+         "complete enumeration of the 9 backend assignments for every name both backends serve (and fallback-only names), differential against the all-default session; complete truth table of FallbackResolver over tagged stub resolvers with nesting",
+         "All assignments of {Default, Ring+Default, Default+Ring} produce byte-identical sessions (handshake, transport, after synchronised rekeys) and interoperate; FallbackResolver yields a primitive iff a member provides it and always the first member's.",
+         "Inputs as in C01's default vector."),
  "C01": ("model_checking", "E1 product + refnoise",
          "exhaustive enumeration of all 13 344 protocol names x deviation-bounded input variations; every step of the real session executed in lock step with an independent reference model bound to third-party vectors",
          "Every handshake/transport message, handshake hash and payload-encrypted flag snow produces for every supported protocol name (both roles, fixed and scripted-RNG ephemerals, stateful/stateless, after a failed call) is compared byte for byte with refnoise; complete over names, bounded (alphabets) over key/prologue/payload values and lengths.",
@@ -73,6 +125,8 @@ def main():
         "engines": [
             {"name": "E1 product", "path": "harness/snowmc/src/props", "serves_properties": sorted(CHECKS.keys()), "kind_free_text": "exhaustive cartesian enumeration of configurations / inputs / fault points on a rayon pool, each case executed on the real code and judged by an oracle"},
             {"name": "executor", "path": "harness/snowmc/src/exec.rs", "serves_properties": sorted(CHECKS.keys()), "kind_free_text": "runs op sequences on real snow objects and on an abstract + crypto reference model in lock step"},
+            {"name": "E2 seqmc", "path": "harness/snowmc/src/engine/seqmc.rs", "serves_properties": ["C05", "C06", "C07", "C09", "C11", "C15"], "kind_free_text": "stateright explicit-state BFS over API call sequences; every transition re-executes the history on fresh real snow objects and on the reference model in lock step; states merged on model + private-state fingerprint + cipher keys"},
+            {"name": "E3 sched", "path": "harness/snowmc/src/props/c16.rs", "serves_properties": ["C16"], "kind_free_text": "shuttle::check_dfs controlled-scheduler exploration of threads sharing one StatelessTransportState, scheduling points at cipher-call seams"},
             {"name": "refnoise", "path": "harness/refnoise", "serves_properties": sorted(CHECKS.keys()), "kind_free_text": "reference model of Noise rev 34 bound to cacophony vectors and KATs"},
         ],
         "checks": checks,
